@@ -55,6 +55,8 @@ def _attach_known(mod, prop):
     from pyvc.engine import Known
     helpers = getattr(mod, "KNOWN_HELPERS", {})
     for d in load_known(prop):
+        if d.get("bounded"):
+            continue            # identified by its input, handled with the bounded stand-in
         for ct in mod.CONTRACTS:
             if ct.label == d["contract"]:
                 expr = d["region"]
